@@ -52,6 +52,32 @@ def conc_script(rng, sid, K, per, policy, wrap=False, flush_ms=0, feeder=True, n
     s.add("stop")
     return s
 
+def release_race_script(sid, variant, il):
+    s = CScript(sid); node = [1, 0, 0]
+    s.add("debug 1"); s.add("start ~ 0", {"e": "creset"})
+    def send(fn, args, t):
+        line, ev = g.ll_line(fn, node, args); s.add(line, dict(ev, e="sub", t=t))
+    if variant == "stall":
+        line, _ = g.up_line([1], 0x8e, [1]); s.add(line, {"e": "wcmd"})
+        send("bidib_send_sys_get_magic", [], 0); send("bidib_send_sys_ping", [7], 0)               # both held
+        release, _ = g.up_line([1], 0x8e, [0])
+    else:
+        for _ in range(8): send("bidib_send_sys_get_magic", [], 0)                                   # 8 x 6 bytes: budget used up
+        send("bidib_send_sys_ping", [7], 0)                                                          # held
+        s.add("flush", {"e": "wcmd"})
+        release, _ = g.up_line([1], 0x81, [0xFE, 0xAF])                                              # the answer to the oldest request
+    s.add("threads sched 1," + ",".join(map(str, il)), {"e": "threads"})
+    s.add("thread 1"); s.add(release, {"e": "wcmd", "in": True})
+    s.add("thread 2"); send("bidib_send_sys_ping", [9], 2)
+    s.add("endthreads")
+    for _ in range(4):
+        s.add("tick 2", {"e": "wcmd"})
+        line, _ = g.up_line([1], 0xa0, [0]); s.add(line, {"e": "wcmd"})
+        s.add("flush", {"e": "wcmd"})
+    s.add("note end", {"e": "end", "all": True})
+    s.add("stop")
+    return s
+
 def trace_of(s, rr):
     """events for Trace_Conc in global order (gs stamps)"""
     evs = []      # (gs, event)
@@ -112,6 +138,14 @@ def run(pid, tier):
             s = conc_script(random.Random(n), "il%d" % n, len(counts), 2 if len(counts) == 2 else 1, "sched " + ",".join(map(str, il)),
                             feeder=False, nodes=[[1, 0, 0]], wrap=(n % 7 == 0))
             scripts.append(s); n += 1
+    # R2: the receiver releases held messages (end of a stall / an answer that frees the budget) while another thread
+    # sends to the same node: every interleaving of the receiver's decision points (label 100) with the sender's
+    n2 = 0
+    for variant in ("stall", "budget"):
+        for il in interleavings({100: 8, 2: 3}):
+            n2 += 1
+            if not thorough and n2 % 2 != ctx.seed % 2: continue
+            scripts.append(release_race_script("rr%d" % n2, variant, il))
     ctx.cov["explicit_interleavings"] = len(scripts)
     nv = 150 if thorough else 24
     for i in range(nv):
